@@ -450,6 +450,11 @@ def correspond(prop, hbin, dbin, ops, seed, tier):
         if verdict.startswith("0"):
             key = verdict[2:] if verdict.startswith("0:") else ""
             specfails.append({"line": i, "case": data[lo:i + 1], "op": op, "impl": impl, "model": mout, "key": key})
+        elif (impl == "hang" or impl.startswith("panic:")) and mout != impl and mout != "*":
+            # hx.Guard outcomes: the real code did not return within the op's deadline, or panicked, on an input for
+            # which the model predicts a result: a concrete failing input whatever the driver's verdict
+            specfails.append({"line": i, "case": data[lo:i + 1], "op": op, "impl": impl, "model": mout,
+                              "key": "impl-hang" if impl == "hang" else "impl-panic"})
     for c in crashes:
         specfails.append({"line": -1 - len(specfails), "case": c["case"], "op": c["case"][-1], "impl": "process crash: " + c["panic"],
                           "model": "", "key": "process-crash", "trace": c["trace"], "crashed_again_alone": c["crashed_again_alone"]})
